@@ -490,8 +490,12 @@ def load_known_findings():
 
 def finish(ctx):
     """Steps 4-5 of the verdict protocol."""
-    os.makedirs(os.path.join(VERIF, "evidence"), exist_ok=True)
-    replay_dir = os.path.join(VERIF, "evidence", "replays")
+    evdir = os.path.join(VERIF, "evidence")
+    if os.path.realpath(ctx.repo) != "/repo":
+        # runs against a scratch copy (seeded changes) never overwrite the committed evidence
+        evdir = os.path.join(WORK, "evidence-alt")
+    os.makedirs(evdir, exist_ok=True)
+    replay_dir = os.path.join(evdir, "replays")
     os.makedirs(replay_dir, exist_ok=True)
     n_ob = len(ctx.obligations)
     n_ok = sum(1 for o in ctx.obligations if o[2])
@@ -524,7 +528,7 @@ def finish(ctx):
         "violations": len(ctx.violations),
     }
     ev["coverage"].update(ctx.extra)
-    with open(os.path.join(VERIF, "evidence", ctx.prop + ".json"), "w") as f:
+    with open(os.path.join(evdir, ctx.prop + ".json"), "w") as f:
         json.dump(ev, f, indent=1, default=str)
     for k in ctx.knowns:
         print("KNOWN-FINDING: property=%s %s" % (ctx.prop, k))
